@@ -6,7 +6,7 @@
     loop.  [cfg_ok C] and [esc_ok E] are decidable conditions that the check discharges for today's source
     by computation (instance obligations); everything else is proved for all inputs. *)
 From Coq Require Import List NArith Bool.
-From SV Require Import KV.KvBase KV.KvLex KV.KvParse KV.KvSer KV.KvSym KV.KvRoundtrip.
+From SV Require Import KV.KvBase KV.KvLex KV.KvParse KV.KvSer KV.KvSym KV.KvRoundtrip KV.KvStrip.
 Import ListNotations.
 Open Scope N_scope.
 
@@ -36,6 +36,17 @@ Theorem serialise_indent_ws_node : forall C E, cfg_ok C = true -> esc_ok E = tru
   forall o1 o2 k, ws_opts o1 = true -> ws_opts o2 = true ->
   lex_all E (serialise_node C E o1 k) = lex_all E (serialise_node C E o2 k).
 Proof. exact indent_independent_tokens_node. Qed.
+
+(** The same clause at the level of the text: deleting the blanks (space, tab) that stand outside quoted
+    strings leaves a canonical text that is a function of the tree alone -- whatever the indent string, the
+    brace style and start_indent. *)
+Theorem serialise_ws_canonical : forall C E, cfg_ok C = true -> esc_ok E = true ->
+  forall o d, ws_opts o = true -> strip_blanks (serialise_doc C E o d) = canon_doc E d.
+Proof. exact ws_canonical_doc. Qed.
+
+Theorem serialise_ws_canonical_node : forall C E, cfg_ok C = true -> esc_ok E = true ->
+  forall o k, ws_opts o = true -> strip_blanks (serialise_node C E o k) = canon E k.
+Proof. exact ws_canonical_node. Qed.
 
 (** The hypotheses are satisfiable (the repaired templates and the pinned escape tables). *)
 Theorem kv_hypotheses_satisfiable : cfg_ok (ref_sercfg (PEsc FName)) = true /\ esc_ok ref_escfg = true.
